@@ -150,6 +150,14 @@ def build_layer(idx: int, spec: List[Tuple[str, List[int]]], r: random.Random, n
                 ngs.append(ng2)
                 # listed before or after the shorter one
                 neg_names.insert(r.randrange(0, 2), ng2["name"])
+        if sid is not None and neg_names and r.random() < 0.25:
+            # a further negative response of the service without request echo: its constant
+            # prefix (7F) is a proper prefix of the other one's (7F <sid>)
+            ngw = {"name": f"nr{k}w", "for": rq["name"], "shape": "neg-wide", "feat": {"shape": "neg"},
+                   "params": [u8const("nsid", 0x7F), p_value("any_sid", "u8"), p_value("nrc", "u8"),
+                              u8const("marker", 0xEE)]}
+            ngs.append(ngw)
+            neg_names.append(ngw["name"])
         if sid is not None and not neg_names and ngs and r.random() < 0.35:
             # a negative response object shared with an earlier service (its request echo then
             # depends on which service it is used for)
@@ -251,13 +259,20 @@ def judge(col: common.Collector, ll: codecrun.LoadedLayer, model: Dict[str, Any]
         n_must = 0
         for kind, m in objs:
             c, vals = classify(ll, m, M, ctx if kind != "rq" else None, len(rq_prefix))
+            if only_may and c == "MUST-NOT" and kind != "rq":
+                # the request argument is not a request of this service: odxtools then matches
+                # the echo against the service's own request prefix - also acceptable
+                c2, _ = classify(ll, m, M, rq_prefix, len(rq_prefix))
+                if c2 in ("MUST", "MAY"):
+                    c, vals = "MAY", None
             if c == "MUST" and not only_may:
                 must.add(s["name"])
                 must_vals[(s["name"], m["name"])] = vals
             if c in ("MUST", "MAY"):
                 may.add(s["name"])
-                if vals is not None:
-                    n_must += 1  # decodes (possibly leaving trailing bytes)
+                # decodes - possibly leaving trailing bytes, possibly with a constant that is
+                # not part of the prefix differing (which odxtools only warns about)
+                n_must += 1
         if n_must > 1:
             # two coding objects of ONE service match M (e.g. a short negative response that
             # tolerates trailing bytes next to a longer one): which of them is "the"
@@ -274,6 +289,13 @@ def judge(col: common.Collector, ll: codecrun.LoadedLayer, model: Dict[str, Any]
             if c == "MUST" and not only_may:
                 must.add(s["name"])
                 may.add(s["name"])
+                continue
+            if request is not None and not only_may:
+                # the triggering request is known and is a request of this service: a global
+                # negative response whose echo contradicts it does not apply
+                c, _ = classify(ll, g, M, request, len(rq_prefix))
+                if c in ("MUST", "MAY"):
+                    may.add(s["name"])
                 continue
             c, _ = classify(ll, g, M, None)
             if c in ("MUST", "MAY"):
@@ -396,7 +418,17 @@ def run_layer(task: Tuple, col: common.Collector) -> None:
                     own.append((M, None, "gnr-message"))
                     if sid in rq_of:
                         own.append((M, rq_of[sid], "gnr-response"))
+                    # ... and as the answer to a request of ANOTHER service (the echo differs)
+                    for other in sids:
+                        if other != sid and other in rq_of and nrc in (0x11, 0x31):
+                            own.append((M, rq_of[other], "gnr-response-other-sid"))
         col.count("layers-with-gnr")
+    if any(n["name"].endswith("w") for n in model["neg"]):
+        for M0, q, c in list(own):
+            if c == "own-request" and M0:
+                for nrc in (0x10, 0x11, 0x31):
+                    own.append((bytes([0x7F, M0[0], nrc, 0xEE]), None, "wide-neg-message"))
+                    own.append((bytes([0x7F, M0[0], nrc, 0xEE]), M0, "wide-neg-response"))
     alpha = sorted({c for _, cs in spec for c in cs[:2]} | {0x00, 0x7F, 0x62})[:6]
     strings = [bytes(t) for n in range(0, 4) for t in itertools.product(alpha, repeat=n)]
     if tier == "quick" and len(strings) > 60:
@@ -481,6 +513,11 @@ def run_prefixless(task: Tuple, col: common.Collector) -> None:
             vals = codeccompose.good_params(pr["params"], by, r)
             k2, e2 = codecrun.ref_encode(ll.ref, pr, vals, e1.pdu)
             if k2 != "ok":
+                continue
+            if codecrun.ref_decode(ll.ref, rq, e2.pdu)[0] == "ok":
+                # the response bytes happen to read as a request of the same service as well:
+                # ambiguous within the service (see the assumption on intra-service ambiguity)
+                col.count("prefixless-ambiguous-skipped")
                 continue
             o = codecrun.call(ll.layer.decode_response, e2.pdu, e1.pdu)
             col.ev()
